@@ -1416,6 +1416,11 @@ func ruleDT7(c *Ctx) {
 			}
 			l := c.replayFactLabel(bf)
 			l0 := strings.TrimSuffix(strings.TrimSuffix(l, ":T"), ":F")
+			if strings.HasPrefix(l, "cmp:") && !isLoopHeader(from) {
+				// an arithmetic comparison is only a loop's own continuation test; anywhere else (len(deps) > 1, ts1 < ts2)
+				// it makes the effect depend on what other events did
+				l, l0 = "compare:"+c.canon(bf.A.X)+bf.A.Op.String()+c.canon(bf.A.Y), "compare "+bf.A.Op.String()
+			}
 			if allowed(l) || allowed(l0+":T") || allowed(l0+":F") {
 				continue
 			}
